@@ -31,6 +31,7 @@ static Plan gen_c05(uint64_t seed, const std::string &tier) {
     Rng r(seed * 1000003 + 105);
     Plan p; p.property = "C05"; p.seed = seed; p.world = base_world();
     World &w = p.world; w.env.clear();
+    if (r.chance(1, 4)) w.cwd_errno = 2;   // %{cwd} then fails without writing anything
     // pieces: literals use upper case / digits / punctuation; value i of a data source is made of the letter 'a'+i
     std::string fmt; J vals = J::arr(); int nvals = 0;
     ExecOp e; e.api = 1; e.path = "/bin/prog"; e.argv = {"prog"}; e.err = 2; e.ret = -1;
@@ -48,7 +49,7 @@ static Plan gen_c05(uint64_t seed, const std::string &tier) {
         case 7: if (!used_cmdline) { used_cmdline = true; size_t n = r.chance(1, 3) ? (size_t)pick_limit(r, 2047) : sizecls(); if (n > 300000) n = 300000; e.argv = {value(n)}; if (n == 0) { e.argv = {"", ""}; vals.a.back() = J(1L); vlen.back() = 1; } fmt += "%{cmdline}"; } break;
         case 8: if (!used_filename) { used_filename = true; size_t n = (size_t)r.range(1, 600); e.path = value(n); fmt += "%{filename}"; } break;
         case 9: fmt += r.chance(1, 2) ? "%{failure}" : "%{nosuch" + std::string(r.chance(1, 2) ? ":arg" : "") + "}"; break;
-        case 10: fmt += r.chance(1, 2) ? "%{}" : "%{:x}"; break;
+        case 10: { static const char *odd[] = {"%{}", "%{:x}", "%{noop}", "%{noop:arg}", "%{cwd}", "%{failure}"}; fmt += odd[r.below(6)]; break; }   // data sources that write nothing / fail
         default: { size_t n = r.chance(1, 3) ? (size_t)r.range(95, 105) : (size_t)r.range(1, 300); if (fmt.size() + n > 900) n = 5; fmt += "%{" + std::string(n, 'Q') + "}"; }
         }
     }
@@ -482,6 +483,7 @@ static std::string c08_value(Rng &r, const std::string &opt, const World &w, boo
     std::string v = std::to_string(n);
     switch (r.below(10)) { case 0: v += "k"; break; case 1: v += "K"; break; case 2: v += "m"; break; case 3: v += "M"; break; case 4: v += r.chance(1, 2) ? " k" : "kb"; break; case 5: if (!roundtrip) v = r.chance(1, 2) ? "abc" : v + "x"; break; default: break; }
     if (r.chance(1, 20) && !roundtrip) v = "";
+    if (r.chance(1, 12) && !roundtrip) { static const char *odd[] = {"-1", "+300", "-5k", "+1k", "-2m", " 300", "\t7k", "0x400", "1e3", "٣٠٠", "-0", "+"}; v = odd[r.below(12)]; }
     return v;
 }
 static Plan gen_c08(uint64_t seed, const std::string &tier) {
